@@ -102,6 +102,16 @@ theorem TS.dropOk_of_strong (s : TS) (l : TLbl) (h : s.dropOkStrong l) : s.dropO
     · trivial
   | _ => trivial
 
+/-- … lifted to histories -/
+def TS.okRunStrong (c : TcpCfg) (s : TS) : List TLbl → Prop
+  | [] => True
+  | l :: rest => s.dropOkStrong l ∧ TS.okRunStrong c (s.step c l) rest
+
+theorem TS.okRun_of_okRunStrong (c : TcpCfg) (ls : List TLbl) : ∀ s : TS, TS.okRunStrong c s ls → TS.okRun c s ls := by
+  induction ls with
+  | nil => intro s _; trivial
+  | cons l rest ih => intro s h; exact ⟨TS.dropOk_of_strong s l h.1, ih _ h.2⟩
+
 def TLbl.isDrop : TLbl → Bool
   | .drop _ _ => true
   | _ => false
